@@ -19,6 +19,7 @@ import (
 type BytePred struct {
 	P     *Program
 	Steps int
+	ctl   int // an unlabelled break or continue travelling to its loop
 	// Stores collects `T[i] = v` assignments to package-level tables made by interpreted
 	// statements (table-filling init loops with constant bounds).
 	Stores map[types.Object]map[int64]int64
@@ -33,8 +34,8 @@ type BytePred struct {
 	// ResultBytes holds the bytes of the last `return append(<bound slice>, …)` that was interpreted.
 	ResultBytes []byte
 	tables      map[types.Object]*Table
-	arrays      map[types.Object]*bpArray // local arrays (`var b [22]byte`), zeroed at declaration
-	views       map[types.Object]bpView   // `u := (*[11]uint16)(unsafe.Pointer(&b))`: another element width over the same bytes
+	arrays      map[types.Object]*bpArray     // local arrays (`var b [22]byte`), zeroed at declaration
+	views       map[types.Object]bpView       // `u := (*[11]uint16)(unsafe.Pointer(&b))`: another element width over the same bytes
 	tabPtrs     map[types.Object]types.Object // a local that points to a package-level table (`lookup := intLookup[k]`)
 }
 
@@ -54,11 +55,17 @@ type bpVal struct {
 	Is  bool // is boolean
 	S   string
 	IsS bool // is a string
+	U   bool // a value the folder does not compute (floating point): it may be stored and returned, not used
 }
 
 type bpEnv map[types.Object]bpVal
 
 const bpMaxSteps = 200000
+
+const (
+	bpContinue = 1
+	bpBreak    = 2
+)
 
 // EvalBool evaluates a boolean expression under env.
 func (bp *BytePred) EvalBool(info *types.Info, e ast.Expr, env bpEnv) (bool, bool) {
@@ -111,7 +118,27 @@ func isUnsigned64(t types.Type) bool {
 	return false
 }
 
+// eval evaluates an expression. An expression of a floating-point type is not computed: its value is the unknown U,
+// which can be assigned and returned; every other use of it (evalV) fails the fold.
 func (bp *BytePred) eval(info *types.Info, e ast.Expr, env bpEnv, depth int) (bpVal, bool) {
+	if tv, ok := info.Types[e]; ok && tv.Type != nil {
+		if b, isB := tv.Type.Underlying().(*types.Basic); isB && b.Info()&types.IsFloat != 0 {
+			return bpVal{U: true}, true
+		}
+	}
+	return bp.evalRaw(info, e, env, depth)
+}
+
+// evalV evaluates an expression whose value is needed.
+func (bp *BytePred) evalV(info *types.Info, e ast.Expr, env bpEnv, depth int) (bpVal, bool) {
+	v, ok := bp.eval(info, e, env, depth)
+	if !ok || v.U {
+		return bpVal{}, false
+	}
+	return v, true
+}
+
+func (bp *BytePred) evalRaw(info *types.Info, e ast.Expr, env bpEnv, depth int) (bpVal, bool) {
 	bp.Steps++
 	if bp.Steps > bpMaxSteps || depth > 40 {
 		return bpVal{}, false
@@ -156,7 +183,7 @@ func (bp *BytePred) eval(info *types.Info, e ast.Expr, env bpEnv, depth int) (bp
 		}
 		return bpVal{}, false
 	case *ast.UnaryExpr:
-		v, ok := bp.eval(info, x.X, env, depth+1)
+		v, ok := bp.evalV(info, x.X, env, depth+1)
 		if !ok {
 			return v, false
 		}
@@ -171,7 +198,7 @@ func (bp *BytePred) eval(info *types.Info, e ast.Expr, env bpEnv, depth int) (bp
 		}
 		return bpVal{}, false
 	case *ast.BinaryExpr:
-		l, ok := bp.eval(info, x.X, env, depth+1)
+		l, ok := bp.evalV(info, x.X, env, depth+1)
 		if !ok {
 			return l, false
 		}
@@ -182,7 +209,7 @@ func (bp *BytePred) eval(info *types.Info, e ast.Expr, env bpEnv, depth int) (bp
 		if x.Op == token.LOR && l.Is && l.B {
 			return bpVal{B: true, Is: true}, true
 		}
-		r, ok := bp.eval(info, x.Y, env, depth+1)
+		r, ok := bp.evalV(info, x.Y, env, depth+1)
 		if !ok {
 			return r, false
 		}
@@ -309,7 +336,7 @@ func (bp *BytePred) eval(info *types.Info, e ast.Expr, env bpEnv, depth int) (bp
 		if obj == nil || obj.Pkg() == nil {
 			return bpVal{}, false
 		}
-		iv, ok := bp.eval(info, x.Index, env, depth+1)
+		iv, ok := bp.evalV(info, x.Index, env, depth+1)
 		if !ok || iv.Is {
 			return bpVal{}, false
 		}
@@ -387,7 +414,7 @@ func (bp *BytePred) eval(info *types.Info, e ast.Expr, env bpEnv, depth int) (bp
 					return bpVal{S: string(bs), IsS: true}, true
 				}
 			}
-			v, ok := bp.eval(info, x.Args[0], env, depth+1)
+			v, ok := bp.evalV(info, x.Args[0], env, depth+1)
 			if !ok || v.Is {
 				return v, ok
 			}
@@ -406,7 +433,7 @@ func (bp *BytePred) eval(info *types.Info, e ast.Expr, env bpEnv, depth int) (bp
 			// pure functions of the standard library, folded natively
 			var args []int64
 			for _, a := range x.Args {
-				v, ok := bp.eval(info, a, env, depth+1)
+				v, ok := bp.evalV(info, a, env, depth+1)
 				if !ok || v.Is {
 					return bpVal{}, false
 				}
@@ -421,7 +448,7 @@ func (bp *BytePred) eval(info *types.Info, e ast.Expr, env bpEnv, depth int) (bp
 			return bpVal{}, false
 		}
 		if callee.Pkg() != nil && callee.Pkg().Path() == "unicode" && len(x.Args) == 1 {
-			v, ok := bp.eval(info, x.Args[0], env, depth+1)
+			v, ok := bp.evalV(info, x.Args[0], env, depth+1)
 			if !ok || v.Is {
 				return bpVal{}, false
 			}
@@ -468,7 +495,7 @@ func (bp *BytePred) eval(info *types.Info, e ast.Expr, env bpEnv, depth int) (bp
 				return bpVal{}, false
 			}
 			set := constant.StringVal(tv.Value)
-			v, ok := bp.eval(info, x.Args[1], env, depth+1)
+			v, ok := bp.evalV(info, x.Args[1], env, depth+1)
 			if !ok || v.Is {
 				return bpVal{}, false
 			}
@@ -494,7 +521,7 @@ func (bp *BytePred) eval(info *types.Info, e ast.Expr, env bpEnv, depth int) (bp
 				if k >= len(x.Args) {
 					return bpVal{}, false
 				}
-				v, ok := bp.eval(info, x.Args[k], env, depth+1)
+				v, ok := bp.evalV(info, x.Args[k], env, depth+1)
 				if !ok {
 					return v, false
 				}
@@ -517,11 +544,28 @@ func (bp *BytePred) eval(info *types.Info, e ast.Expr, env bpEnv, depth int) (bp
 // exec interprets a statement list: assignments to bound variables, if, return, simple switch.
 func (bp *BytePred) exec(info *types.Info, list []ast.Stmt, env bpEnv, depth int) (ret bpVal, done, ok bool) {
 	for _, st := range list {
+		if bp.ctl != 0 {
+			// an unlabelled break or continue is on its way to the enclosing loop (or switch)
+			return bpVal{}, false, true
+		}
 		bp.Steps++
 		if bp.Steps > bpMaxSteps {
 			return bpVal{}, false, false
 		}
 		switch s := st.(type) {
+		case *ast.BranchStmt:
+			if s.Label != nil {
+				return bpVal{}, false, false
+			}
+			switch s.Tok {
+			case token.CONTINUE:
+				bp.ctl = bpContinue
+			case token.BREAK:
+				bp.ctl = bpBreak
+			default:
+				return bpVal{}, false, false
+			}
+			return bpVal{}, false, true
 		case *ast.ReturnStmt:
 			if len(s.Results) == 0 {
 				return bpVal{}, false, false
@@ -612,6 +656,11 @@ func (bp *BytePred) exec(info *types.Info, list []ast.Stmt, env bpEnv, depth int
 				if v, done, ok := bp.exec(info, s.Body.List, env, depth+1); !ok || done {
 					return v, done, ok
 				}
+				if bp.ctl == bpBreak {
+					bp.ctl = 0
+					break
+				}
+				bp.ctl = 0
 				if s.Post != nil {
 					if _, _, ok := bp.exec(info, []ast.Stmt{s.Post}, env, depth+1); !ok {
 						return bpVal{}, false, false
@@ -647,6 +696,11 @@ func (bp *BytePred) exec(info *types.Info, list []ast.Stmt, env bpEnv, depth int
 					if v, done, ok := bp.exec(info, s.Body.List, env, depth+1); !ok || done {
 						return v, done, ok
 					}
+					if bp.ctl == bpBreak {
+						bp.ctl = 0
+						break
+					}
+					bp.ctl = 0
 				}
 				continue
 			}
@@ -663,10 +717,50 @@ func (bp *BytePred) exec(info *types.Info, list []ast.Stmt, env bpEnv, depth int
 				if v, done, ok := bp.exec(info, s.Body.List, env, depth+1); !ok || done {
 					return v, done, ok
 				}
+				if bp.ctl == bpBreak {
+					bp.ctl = 0
+					break
+				}
+				bp.ctl = 0
 			}
 		case *ast.AssignStmt:
+			if len(s.Lhs) > 1 && len(s.Lhs) == len(s.Rhs) && (s.Tok == token.DEFINE || s.Tok == token.ASSIGN) {
+				// a, b := x, y: the right-hand sides are evaluated first, then assigned
+				vals := make([]bpVal, len(s.Rhs))
+				for i, r := range s.Rhs {
+					v, ok := bp.eval(info, r, env, depth+1)
+					if !ok {
+						return bpVal{}, false, false
+					}
+					vals[i] = v
+				}
+				for i, l := range s.Lhs {
+					if id, isID := l.(*ast.Ident); isID && id.Name == "_" {
+						continue
+					}
+					obj := ObjOf(info, l)
+					if obj == nil {
+						return bpVal{}, false, false
+					}
+					v := vals[i]
+					if !v.Is && !v.IsS && !v.U {
+						v.I = truncate(obj.Type(), v.I)
+					}
+					env[obj] = v
+				}
+				continue
+			}
 			if len(s.Lhs) != 1 || len(s.Rhs) != 1 {
 				return bpVal{}, false, false
+			}
+			if id, isID := Unparen(s.Rhs[0]).(*ast.Ident); isID && (s.Tok == token.DEFINE || s.Tok == token.ASSIGN) {
+				// an alias of a bound byte string
+				if bs, bound := bp.Strings[ObjOf(info, id)]; bound {
+					if lobj := ObjOf(info, s.Lhs[0]); lobj != nil {
+						bp.Strings[lobj] = bs
+						continue
+					}
+				}
 			}
 			if ix, isIx := Unparen(s.Lhs[0]).(*ast.IndexExpr); isIx && s.Tok == token.ASSIGN {
 				tobj := ObjOf(info, ix.X)
@@ -860,13 +954,15 @@ func (bp *BytePred) exec(info *types.Info, list []ast.Stmt, env bpEnv, depth int
 				}
 				if chosen != nil {
 					for _, b := range chosen.Body {
-						if br, ok := b.(*ast.BranchStmt); ok {
-							_ = br
+						if br, ok := b.(*ast.BranchStmt); ok && br.Tok == token.FALLTHROUGH {
 							return bpVal{}, false, false
 						}
 					}
 					if v, done, ok := bp.exec(info, chosen.Body, env, depth+1); !ok || done {
 						return v, done, ok
+					}
+					if bp.ctl == bpBreak {
+						bp.ctl = 0
 					}
 				}
 				continue
@@ -905,6 +1001,9 @@ func (bp *BytePred) exec(info *types.Info, list []ast.Stmt, env bpEnv, depth int
 				}
 				if v, done, ok := bp.exec(info, chosen.Body, env, depth+1); !ok || done {
 					return v, done, ok
+				}
+				if bp.ctl == bpBreak {
+					bp.ctl = 0
 				}
 			}
 		case *ast.BlockStmt:
